@@ -120,7 +120,9 @@ func (t *Input) CoerceIn(v interface{}) (interface{}, error) {
 							return nil, inErr(err, k)
 						}
 					} else {
-						tv[k] = f.Default
+						// A copy, the default belongs to the schema and the
+						// value is coerced in place further down.
+						tv[k] = copyValue(f.Default)
 					}
 				} else if _, ok := f.Type.(*NonNull); ok {
 					return nil, fmt.Errorf("%s is required but missing", k)
@@ -261,4 +263,24 @@ func (t *Input) Resolve(field *Field, args map[string]interface{}) (result inter
 		// return nil
 	}
 	return
+}
+
+// copyValue returns a copy of the lists and objects of a value, scalars are
+// immutable and shared.
+func copyValue(v interface{}) interface{} {
+	switch tv := v.(type) {
+	case []interface{}:
+		c := make([]interface{}, len(tv))
+		for i, e := range tv {
+			c[i] = copyValue(e)
+		}
+		return c
+	case map[string]interface{}:
+		c := make(map[string]interface{}, len(tv))
+		for k, e := range tv {
+			c[k] = copyValue(e)
+		}
+		return c
+	}
+	return v
 }
